@@ -21,6 +21,14 @@ use crate::projections::dodecahedron::DodecahedronProjection;
 use std::collections::HashSet;
 
 /// Convert lon/lat coordinates to A5 cell ID
+#[cfg(feature = "verif")]
+thread_local! {
+    /// Verification hook: which branch produced the last lonlat_to_cell answer in this
+    /// thread. k >= 0: the k-th distinct estimate contained the point (0 = direct
+    /// estimate), -1: fallback to the closest estimate, -2: resolution below the curve.
+    pub static VERIF_LAST_BRANCH: std::cell::Cell<i32> = const { std::cell::Cell::new(-3) };
+}
+
 pub fn lonlat_to_cell(lonlat: LonLat, resolution: i32) -> Result<u64, String> {
     // Resolution -1 represents WORLD_CELL, which covers the entire world
     if resolution == -1 {
@@ -36,6 +44,8 @@ pub fn lonlat_to_cell(lonlat: LonLat, resolution: i32) -> Result<u64, String> {
 
     if resolution < FIRST_HILBERT_RESOLUTION {
         // For low resolutions there is no Hilbert curve, so we can just return as the result is exact
+        #[cfg(feature = "verif")]
+        VERIF_LAST_BRANCH.with(|b| b.set(-2));
         let estimate = lonlat_to_estimate(lonlat, resolution)?;
         return serialize(&estimate);
     }
@@ -69,6 +79,8 @@ pub fn lonlat_to_cell(lonlat: LonLat, resolution: i32) -> Result<u64, String> {
             // Check if we have a hit, storing distance if not
             let distance = a5cell_contains_point(&estimate, lonlat)?;
             if distance > 0.0 {
+                #[cfg(feature = "verif")]
+                VERIF_LAST_BRANCH.with(|b| b.set(unique_estimates.len() as i32 - 1));
                 return serialize(&estimate);
             } else {
                 cells.push((estimate, distance));
@@ -77,6 +89,8 @@ pub fn lonlat_to_cell(lonlat: LonLat, resolution: i32) -> Result<u64, String> {
     }
 
     // As fallback, sort cells by distance and use the closest one
+    #[cfg(feature = "verif")]
+    VERIF_LAST_BRANCH.with(|b| b.set(-1));
     cells.sort_by(|a, b| b.1.partial_cmp(&a.1).unwrap_or(std::cmp::Ordering::Equal));
     serialize(&cells[0].0)
 }
